@@ -28,6 +28,8 @@ var c10Syms = []struct{ name, text string }{
 	{"©", "©"}, {"copyright-2000", "copyright 2000"}, {"https", "https"}, {"<", "<"},
 	{"LONG", strings.Repeat("a", 70000)}, {"EDGE", strings.Repeat(" ", 1019)}, {"HYSTORM", strings.Repeat("-\n", 500)},
 	{"WORDS", "aa bb cc aa bb "}, {"a-NL", "a-\n"},
+	// capitals whose lower-case form has a different UTF-8 length (case folding changes byte offsets)
+	{"U+0130", "\u0130"}, {"&#304;", "&#304;"}, {"KELVIN", "\u212a"}, {":", ":"}, {"U+1E9E", "\u1e9e"},
 }
 
 var c10Thresholds = []float64{0, 0.01, 0.5, 0.8, 0.999, 1}
